@@ -9,9 +9,10 @@ Model of the backend request authentication: C02.
   a statement changes the function the theorems are about;
 * `backend_client.go`: `PerformJSONRequest` as far as the two headers are concerned.
 
-* `backend_configuration.go` / `backend_storage_static.go`: which configured backend a URL
-  belongs to (`getBackendLocked`, `getConfiguredHosts`), interpreted from the extracted
-  statements, for URLs of the plain shape `http(s)://host/path`.
+* `backend_configuration.go` / `backend_storage_static.go` / `backend_storage_etcd.go`: which
+  configured backend a URL belongs to (`getBackendLocked`; URLs stored by `getConfiguredHosts`
+  resp. `EtcdKeyUpdated`), interpreted from the extracted statements, for URLs of the plain
+  shape `http(s)://host/path`.
 
 The MAC is a parameter (`Hmac.Mac`).  Which backend a `Spreed-Signaling-Backend` header
 value resolves to is computed by `hdrOf` for plain URLs in a configuration with backend
@@ -167,11 +168,13 @@ def performRequest (mac : Mac) (target : Option Backend) (entropy body : Bytes) 
 `BackendConfiguration.GetBackend` → `storage.GetBackend` → `getBackendLocked`, for URLs of the plain
 shape `http(s)://host[:port]/path` without query, fragment, escapes or dot segments (`url.Parse` followed
 by `u.String()` is then the identity; everything else stays an input, see `Hdr`).  Interpreted from the
-extracted statement lists: the `'/'`-termination of the looked-up URL and the comparison in the loop.
+extracted statement lists: the `'/'`-termination of the looked-up URL and the comparison in the loop (with
+the entry's URL `'/'`-terminated as well — stored that way by `getConfiguredHosts`, completed in the loop for
+the entries of the etcd storage, which keeps URLs as given).
 Not modelled separately because subsumed for such URLs by the comparison of whole URL strings with a
 `'/'`-terminated entry URL: the host table (`s.backends[u.Host]`) and the scheme rule (`IsUrlAllowed`). -/
 
-/-- A configured backend with the URL `getConfiguredHosts` stores for it. -/
+/-- A configured backend with the URL stored for it (`getConfiguredHosts`: `'/'`-terminated; `EtcdKeyUpdated`: as given). -/
 structure Entry where
   backend : Backend
   url : List Char
@@ -185,19 +188,27 @@ def slashTerm (u : List Char) : List Char := if endsSlash u then u else u ++ ['/
 def stmtConfigAppendsSlash : String := "if u[len(u)-1] != '/' { u += \"/\" }"
 def stmtLookupAppendsSlash : String := "if url[len(url)-1] != '/' { url += \"/\" }"
 def stmtLookupLoop : String :=
-  "for _, entry := range entries { if !entry.IsUrlAllowed(u) { continue } if entry.url == \"\" { return entry } else if strings.HasPrefix(url, entry.url) { return entry } }"
+  "for _, entry := range entries { if !entry.IsUrlAllowed(u) { continue } if entry.url == \"\" { return entry } entryUrl := entry.url if entryUrl[len(entryUrl)-1] != '/' { entryUrl += \"/\" } if strings.HasPrefix(url, entryUrl) { return entry } }"
 
 /-- `getConfiguredHosts`: the URL an entry is stored with. -/
 def configUrl (u : List Char) : List Char :=
   if configUrlProgram.contains stmtConfigAppendsSlash then slashTerm u else u
 
+/-- `EtcdKeyUpdated` stores `info.Url` as `BackendInformationEtcd.CheckValid` leaves it: as given (the
+only rewriting there drops a standard port) — unless a `'/'`-terminating statement appears in `CheckValid`. -/
+def stmtEtcdAppendsSlash : String := "if p.Url[len(p.Url)-1] != '/' { p.Url += \"/\" }"
+def etcdUrl (u : List Char) : List Char :=
+  if etcdUrlProgram.contains stmtEtcdAppendsSlash then slashTerm u else u
+
 /-- The local `url` of `getBackendLocked` when the loop starts. -/
 def lookupKey (u : List Char) : List Char :=
   if lookupProgram.contains stmtLookupAppendsSlash then slashTerm u else u
 
-/-- The loop body: `strings.HasPrefix(url, entry.url)` (an entry without URL — compat — matches). -/
+/-- The loop body: an entry without URL (compat: only hosts are configured) matches; otherwise
+`entryUrl := entry.url; if entryUrl[len(entryUrl)-1] != '/' { entryUrl += "/" }; strings.HasPrefix(url, entryUrl)`
+— the entry's URL is `'/'`-terminated for the comparison if it is not stored that way (backends from etcd). -/
 def entryMatches (key : List Char) (e : Entry) : Bool :=
-  if lookupProgram.contains stmtLookupLoop then e.url.isPrefixOf key else false
+  if lookupProgram.contains stmtLookupLoop then e.url.isEmpty || (slashTerm e.url).isPrefixOf key else false
 
 /-- `getBackendLocked`: the first entry that matches, in the order of the configuration. -/
 def lookup (es : List Entry) (u : List Char) : Option Backend :=
